@@ -591,6 +591,32 @@ func TestIndependentInstancesShareTrustStore(t *testing.T) {
 	} else {
 		evid.Infra(t, "issuer master list: %v", err)
 	}
+	// fresh, never-used instances of each kind: lazily built state inside a trust store (indexes,
+	// caches) is initialised by its FIRST users, and those may well be concurrent
+	fresh := map[string]func() cms.CertPool{
+		"generic": func() cms.CertPool {
+			p, err := readcheck.Pool(f.p)
+			if err != nil {
+				return generic
+			}
+			return p
+		},
+		"combined": func() cms.CertPool {
+			c := &cms.CombinedCertPool{}
+			if p, err := readcheck.Pool(f.p); err == nil {
+				c.AddCertPool(p)
+			} else {
+				c.AddCertPool(f.pool)
+			}
+			return c
+		},
+		"signed-data": func() cms.CertPool {
+			if sp, err := cms.CreateCertPoolFromSignedData(ml.DER, ml.RootDER); err == nil {
+				return sp
+			}
+			return sdPool
+		},
+	}
 	pools := []struct {
 		name string
 		pool cms.CertPool
@@ -608,13 +634,24 @@ func TestIndependentInstancesShareTrustStore(t *testing.T) {
 	}
 	evid.RapidCheck(t, 96, 4000, func(rt *rapid.T) {
 		pl := pools[rapid.IntRange(0, len(pools)-1).Draw(rt, "pool")]
+		if rapid.IntRange(0, 3).Draw(rt, "fresh-pool") > 0 {
+			pl.pool = fresh[pl.name]() // a copy of the element: the warmed pool stays in pools
+			evid.Count("independent-fresh-trust-store", 1)
+		}
 		n := rapid.IntRange(4, 16).Draw(rt, "instances")
 		procs := rapid.SampledFrom([]int{2, 4, 16}).Draw(rt, "gomaxprocs")
 		kinds := make([]int, n)
 		yields := make([]int, n)
+		leRejects := make([]int, n)
+		maxLes := make([]int, n)
 		for i := range kinds {
 			kinds[i] = rapid.IntRange(0, 2).Draw(rt, "kind") // 0 reader, 1 verifier, 2 pool lookups
 			yields[i] = rapid.IntRange(0, 20).Draw(rt, "yield")
+			leRejects[i] = rapid.SampledFrom([]int{0, 0, 200, 150, 255}).Draw(rt, "leReject")
+			maxLes[i] = rapid.SampledFrom([]int{0, 0, 256, 1000}).Draw(rt, "maxLe")
+			if leRejects[i] > 0 && kinds[i] == 0 {
+				evid.Count("independent-reader-with-le-fallback", 1)
+			}
 		}
 		old := runtime.GOMAXPROCS(procs)
 		defer runtime.GOMAXPROCS(old)
@@ -635,7 +672,13 @@ func TestIndependentInstancesShareTrustStore(t *testing.T) {
 				switch kinds[i] {
 				case 0:
 					chip := f.p.NewChip()
+					// some chips refuse a READ BINARY above a size of their own, so that the readers run
+					// their Le fallback (state shared between sessions there would be shared between goroutines here)
+					chip.Cfg.LeReject = leRejects[i]
 					nfc := iso7816.NewNfcSession(&yieldingLink{inner: chip})
+					if maxLes[i] > 0 {
+						nfc.SetMaxLe(maxLes[i])
+					}
 					pass, _ := password.NewPasswordMrzi(f.p.DocNo, f.p.DOB, f.p.Expiry)
 					ex, _, err := reader.NewReader(nil, nfc, pl.pool).ReadDocument(pass, nil, nil)
 					outs[i] = readerOutcomeNoNonce(ex, err)
